@@ -164,7 +164,7 @@ Definition expected_digests : list (string * string) :=
   ("scheduler.py:Scheduler.fire_event", "3082770a5c01db77195052ef785bb805");
   ("scheduler.py:Scheduler.start", "351c00c1bb47b606e34773d1a14358ee");
   ("scheduler.py:Scheduler.on_task_started", "2eb99279b3c73381d423f5fd56a3ac77");
-  ("scheduler.py:Scheduler.on_service_started", "325c4f42a5fcb81cbd40a83e9f05fca4");
+  ("scheduler.py:Scheduler.on_service_started", "e3462fc3655837add7a8d441c4bc51dc");
   ("scheduler.py:Scheduler.on_service_finished", "8f7dd9ec57a0db244613bc54f3947f40");
   ("scheduler.py:Scheduler.on_task_finished", "149843c647bc9fde485e6a6e4a06efb4");
   ("scheduler.py:Scheduler.on_condition_started", "fc7d574cf000c5d71d628bdae55a488a");
